@@ -359,7 +359,7 @@ def randomized(call, rng):
 # replay with guard zones
 # --------------------------------------------------------------------------
 PAD = 64  # guard elements on either side of every array
-CANARY = {"f": 1.2345678901234567e+123, "i": 0x5A5A5A5A}
+CANARY = {"f": 0.7853981633974483, "i": 0x5A5A5A5A}  # ordinary magnitude: `+=` of a typical value changes it
 
 
 def guarded(arr):
@@ -443,6 +443,10 @@ def select_cases(calls, rng, per_kernel=6, per_kernel_random=3):
         tags = {}
         for c in lst:
             tags.setdefault(c["tag"], []).append(c)
+        # within one configuration the larger argument tuples first (lists of q-points
+        # before the single Gamma-point calls the Python layer also makes)
+        for t in tags:
+            tags[t].sort(key=lambda c: -sum(x.size for x in c["args"] if isinstance(x, np.ndarray)))
         order = []
         while any(tags.values()):
             for t in list(tags):
